@@ -44,6 +44,7 @@ Inductive StepShape (s : sys) (l : label) : Prop :=
     label_actor l = Some a -> get_actor s a = Some x -> Local s a x l f fo evs -> sys_step s l = NF a f fo evs s ->
     StepShape s l
 | SS_ddpanic a x f fo evs :
+    label_actor l = None ->
     get_actor s a = Some x -> DdPanic s a x f fo evs -> sys_step s l = NF a f fo evs s -> StepShape s l
 | SS_none : sys_step s l = s -> StepShape s l.
 
@@ -86,7 +87,7 @@ Proof.
       apply (rsame_begin_send AR AR_refl AR_trans AR_waiters AR_granted AR_hop AR_push).
       * intros st Hst. eapply arsame_ext; [apply Ga|exact Hst].
       * eapply arsame_ext; [|apply Hrefl]. reflexivity.
-    + eapply SS_ddpanic; eassumption.
+    + eapply SS_ddpanic; [reflexivity|eassumption..].
   - apply Hcl; [reflexivity|]. apply (rsame_poll AR AR_refl AR_trans AR_waiters AR_granted AR_hop AR_push), Hrefl.
   - apply Hcl; [reflexivity|]. apply (rsame_cancel AR AR_refl AR_trans AR_waiters AR_granted AR_hop), Hrefl.
   - apply Hcl; [reflexivity|]. cbn [sys_step]. unfold kill. repeat case_match; try apply Hrefl.
@@ -297,7 +298,7 @@ Proof.
       rewrite (os_trace _ _ _ _ _ _ HS). right. left. congruence.
   - (* ak_slot *)
     intros a y o p' Hy Hin Hp' Hse.
-    destruct (step_shape s l) as [Hl H1 H2|a0 x0 f fo evs Hl Hx0 HL E|a0 x0 f fo evs Hx0 HD E|E].
+    destruct (step_shape s l) as [Hl H1 H2|a0 x0 f fo evs Hl Hx0 HL E|a0 x0 f fo evs Hl Hx0 HD E|E].
     + destruct (get_actor s a) as [x|] eqn:Hx.
       * destruct (H1 a x Hx) as (y' & Hy' & HAR). rewrite Hy in Hy'. injection Hy' as <-.
         destruct HAR as [C (d & A & M & K)]. rewrite A in Hin. apply in_app_or in Hin. destruct Hin as [Hin|Hin].
